@@ -401,6 +401,7 @@ def r_multiorigin_init(ck: Checker, rule: str = "R-MERGE-FLAT") -> None:
 
     leaves = decision_tree(m.node.body, call_hook=common_hook, loop_hook=search_hook, domain=lambda k: (0, 1, 2, 3) if k.startswith("len(") else (True, False))
     bad = []
+    bad_pos: list[str] = []
     n_ok = 0
     for lf in leaves:
         a_ = lf.assign
@@ -416,6 +417,28 @@ def r_multiorigin_init(ck: Checker, rule: str = "R-MERGE-FLAT") -> None:
         if ident:
             bad.append("the common-source test compares sources by identity (equal sources held as distinct objects give a SourceSet, "
                        "yet the deserialised origin, whose sources are canonical, gets the single source)")
+            continue
+        skipping = None
+        for k in [k for k in others if k not in k_common and k.startswith(("all((", "any(("))]:
+            try:
+                ce = ast.parse(k, mode="eval").body
+            except SyntaxError:
+                continue
+            g0 = ce.args[0] if isinstance(ce, ast.Call) and ce.args and isinstance(ce.args[0], (ast.GeneratorExp, ast.ListComp)) else None
+            if g0 is None:
+                continue
+            its = [g0.generators[0].iter] + ([g0] if g0.generators[0].ifs else [])
+            it0 = its[0].value if isinstance(its[0], ast.Subscript) else its[0]
+            if isinstance(it0, ast.Name):
+                defs = [st for st in walk_body(m.node.body) if isinstance(st, ast.Assign) and len(st.targets) == 1 and norm(st.targets[0]) == it0.id]
+                its += [d.value for d in defs]
+            for e_ in its:
+                if (isinstance(e_, (ast.ListComp, ast.GeneratorExp, ast.SetComp)) and any(g_.ifs for g_ in e_.generators) and "self.origins" in norm(e_)) \
+                        or (isinstance(e_, ast.Call) and dotted(e_.func) in ("filter", "itertools.filterfalse", "filterfalse") and "self.origins" in norm(e_)):
+                    skipping = norm(e_)[:70]
+        if skipping:
+            bad_pos.append(f"the common-source test ranges over a filtered member list ({skipping}): a listed member whose source differs is ignored, "
+                           "and the multi-origin claims one source for all of them")
             continue
         if [k for k in others if k not in k_common]:
             raise Unsupported(f"MultiOrigin.__post_init__ decides on {others}", m.node)
@@ -435,7 +458,9 @@ def r_multiorigin_init(ck: Checker, rule: str = "R-MERGE-FLAT") -> None:
         elif not common and src[-1:] != ["SourceSet(tuple((_b0.source for _b0 in self.origins)))"]:
             bad.append(f"different sources: source is {src}")
         n_ok += 1
-    if bad:
+    if bad_pos:
+        ck.violation(rule, m, m.node, what, positive=True, construct=f"MultiOrigin.__post_init__: {bad_pos[0]}")
+    elif bad:
         ck.violation(rule, m, m.node, what, construct=f"MultiOrigin.__post_init__: {bad[0]}")
     elif not n_ok:
         raise Unsupported("MultiOrigin.__post_init__: no accepting path found", m.node)
